@@ -177,8 +177,17 @@ class Facts:
              {"k": "Inl", "callee": path, "stmts": [Let param = arg ...], "body": <helper body>, "t": .., "l": .., "orig": call}
         (locals and node ids of the helper renumbered so they cannot clash with the caller's).  Rules that have no callee
         summaries of their own analyse this view so that an extract-method refactor does not hide code from them."""
-        key = (fpath, depth, id(pred))
+        # predicates are keyed by function + owner object, never by the id of a transient bound-method / lambda object
+        fn = getattr(pred, "__func__", pred)
+        owner = getattr(pred, "__self__", None)
+        key = (fpath, depth, None if pred is None else (getattr(fn, "__module__", ""), getattr(fn, "__qualname__", repr(fn)),
+                                                        id(owner) if owner is not None and owner is not self else 0))
+        if pred is not None and "<lambda>" in key[2][1]:
+            key = None
         cache = self.__dict__.setdefault("_inl_cache", {})
+        if key is None:            # anonymous predicate: not cacheable
+            self._inl_counter = self.__dict__.get("_inl_counter", 0)
+            return self._inline(self.hir[fpath], fpath, depth, (fpath,), pred)
         if key not in cache:
             self._inl_counter = self.__dict__.get("_inl_counter", 0)
             cache[key] = self._inline(self.hir[fpath], fpath, depth, (fpath,), pred)
@@ -199,7 +208,7 @@ class Facts:
                     it = self.items[d]
                     args = ([out["recv"]] if n["k"] == "MCall" else []) + out.get("args", [])
                     if len(args) == len(it["params"]):
-                        self._inl_counter += 1
+                        self._inl_counter = self.__dict__.get("_inl_counter", 0) + 1
                         base = self._inl_counter * 1000000
                         hb = _renumber(self._inline(self.hir[d], d, depth - 1, stack + (d,), pred), base)
                         lets = []
